@@ -45,6 +45,22 @@ type hostileOut struct {
 }
 type keyStruct struct{ a, b int }
 
+// disposables of types that cannot be compared or hashed
+type closerList []func() error
+
+func (c closerList) Close() error { return nil }
+
+type closerStruct struct {
+	hooks map[string]func()
+}
+
+func (c closerStruct) Close() error { return nil }
+
+// a disposable of zero size: all its instances may share one address
+type zeroCloser struct{}
+
+func (*zeroCloser) Close() error { return nil }
+
 // valSvc is registered by value: only *valSvc has the methods of the service
 // interfaces (Base has pointer receivers).
 type valSvc struct{ kit.Base }
@@ -127,6 +143,11 @@ func hostileServices() []hostile {
 		{"generic-func", genericCtor[*kit.N0]},
 		{"method-value", (&kit.N0{}).Shutdown},
 		{"ok-plain", func() *kit.N1 { return &kit.N1{} }},
+		{"disposable-slice-value", func() closerList { return closerList{func() error { return nil }} }},
+		{"disposable-slice-instance", closerList{nil}},
+		{"disposable-map-struct", func() closerStruct { return closerStruct{hooks: map[string]func(){}} }},
+		{"disposable-map-struct-instance", closerStruct{}},
+		{"disposable-zero-size", func() *zeroCloser { return &zeroCloser{} }},
 	}
 }
 
@@ -202,6 +223,7 @@ func hostileKeys() []any {
 
 func hostileTypes() []reflect.Type {
 	return []reflect.Type{nil, kit.RType(0), kit.RType(kit.NumD), kit.RType(kit.TI0), kit.CtxType, kit.ScopeType, kit.ProviderType, reflect.TypeOf(0), reflect.TypeOf(""), reflect.TypeOf(struct{}{}),
+		reflect.TypeOf(closerList{}), reflect.TypeOf(closerStruct{}), reflect.TypeOf(&zeroCloser{}),
 		reflect.TypeOf([]*kit.N1{}), reflect.TypeOf((*error)(nil)).Elem(), reflect.TypeOf(keyStruct{}), reflect.TypeOf(func() {}), reflect.TypeOf(make(chan int)), reflect.TypeOf(map[string]int{})}
 }
 
